@@ -19,6 +19,11 @@ pub fn gen_conc(property: &str, profile: &str, seed: u64) -> Plan {
     plan.sched = swarm_sched(&mut sw.rng, true);
     plan.sched.buggify_mask = if sw.rng.chance(3, 4) { sw.rng.below(256) as u32 } else { 0 };
     plan.sched.channel_cap = *sw.rng.pick(&[1usize, 4, 64, 1024, 1024]);
+    // a quarter of the runs: blocking closures on their own threads, interleaved at I/O-call granularity
+    plan.sched.preempt_jobs = !big && !burst && sw.rng.chance(1, 4);
+    if plan.sched.preempt_jobs {
+        plan.sched.inplace_small = false;
+    }
     plan.n_keys = sw.rng.range(1, 6) as u8;
     sw.n_keys = plan.n_keys;
     plan.check_each_step = true; // only used by the sequential tail session
